@@ -7,11 +7,15 @@ import GradysProofs.Lemmas.SimTimer
   execEv → execStep → step → steps  is proved ONCE, generically (`CountSpec`, `Grow`): for a
   predicate `po` on observations, `pa` on accepted events and `px` on executed events, every function
   of the chain increases  `countP pa raccepted + countP px rexecuted`  and  `countP po rtrace`  by
-  amounts related by an additive relation `R` (`=`, `≤`, `≥`).  The four instances are
-   * accepted `set_timer` requests   =  created timer events          (`pa`, `R` is `=`)
-   * `handle_timer` calls            ≤  executed timer events         (`px`, `R` is `≥`)
-   * `handle_packet` calls           =  executed delivery events      (`px`, `R` is `=`)
-   * created delivery events         ≤  accepted send/broadcast requests addressing the node (`pa`, `≤`)
+  amounts related by an additive relation `R` (`=`, `≤`, `≥`); a condition `G` on the worlds in which
+  requests are executed can be carried along the run (`OkSteps`).  The instances are
+   * `spec_setT`      accepted `set_timer` requests  =  created timer events        (`pa`, `=`)
+   * `spec_firedT`    `handle_timer` calls           ≤  executed timer events       (`px`, `≥`)
+   * `spec_handledP`, `spec_handledTo`  `handle_packet` calls = executed delivery events (`px`, `=`)
+   * `spec_addr`      created delivery events ≤ accepted send/broadcast requests addressing the node
+   * `spec_addr_eq`   ... with equality, under a loss-free medium and `G` = every range test true.
+  Last part (`QExt`, `FExt`, `FInv`): as long as no `cancel_timer(name)` by `n` was accepted, every
+  queued timer event of `(n, name)` is still pending, hence each executed one made its callback.
 -/
 set_option linter.unusedSectionVars false
 
@@ -44,6 +48,11 @@ def isTimerEv (n : NodeId) (name : String) (t : Int) (e : Ev (EvKind S)) : Bool 
 /-- `handle_packet(msg)` called on node `dst`, reporting time `t` -/
 def isPacketCb (dst : NodeId) (msg : String) (t : Int) : Obs S → Bool
   | .callback m (.packet mg) t' => decide (m = dst ∧ mg = msg ∧ t' = t)
+  | _ => false
+
+/-- `handle_packet(msg)` called on node `dst`, any reported time -/
+def isPacketCbAny (dst : NodeId) (msg : String) : Obs S → Bool
+  | .callback m (.packet mg) _ => decide (m = dst ∧ mg = msg)
   | _ => false
 
 /-- a delivery event for node `dst` with payload `msg` due at `t` -/
@@ -96,6 +105,12 @@ def execdD (w : World S σ) (dst : NodeId) (msg : String) (t : Int) : Nat := w.e
 def createdD (w : World S σ) (dst : NodeId) (msg : String) (t : Int) : Nat := w.accepted.countP (isDeliverEv dst msg t)
 /-- number of created delivery events for `(dst, msg)`, any time -/
 def createdTo (w : World S σ) (dst : NodeId) (msg : String) : Nat := w.accepted.countP (isDeliverTo dst msg)
+/-- number of `handle_packet(msg)` calls on `dst` in the trace, any time -/
+def handledTo (w : World S σ) (dst : NodeId) (msg : String) : Nat := w.trace.countP (isPacketCbAny dst msg)
+/-- number of executed delivery events for `(dst, msg)`, any time -/
+def execdTo (w : World S σ) (dst : NodeId) (msg : String) : Nat := w.executed.countP (isDeliverTo dst msg)
+/-- number of queued delivery events for `(dst, msg)`, any time -/
+def queuedTo (w : World S σ) (dst : NodeId) (msg : String) : Nat := w.loop.queue.countP (isDeliverTo dst msg)
 /-- number of accepted `send(msg, dst)` requests in the trace -/
 def accSendTo (w : World S σ) (dst : NodeId) (msg : String) : Nat := w.trace.countP (isSendAcc dst msg)
 /-- number of accepted `broadcast(msg)` requests by nodes other than `dst` in the trace -/
@@ -153,12 +168,101 @@ def evInc (po : Obs S → Bool) (t : Int) (e : Ev (EvKind S)) (pend : Bool) : Na
   | .mobTick => 0
   | .telemetry n p => bit (po (.callback n (.telemetry p) t))
 
+/-! A condition `G n r w` on the worlds in which requests are executed can be carried along a run
+    (`OkProg` … `OkSteps`: "`G` holds at every request the run executes").  The unconditional
+    instances use `NoCond`. -/
+
+section ok
+variable (G : NodeId → Request S → World S σ → Prop) (cfg : Config S) (P : NodeId → Proto S σ)
+
+/-- `G` holds at every request the program executes from `w` -/
+def OkProg (n : NodeId) : Prog S σ → World S σ → Prop
+  | .done _, _ => True
+  | .req r k, w => G n r w ∧
+      OkProg n (k (execReq cfg n r w).2) (log (.request n r (execReq cfg n r w).2) (execReq cfg n r w).1)
+
+def OkCallback (n : NodeId) (cb : Callback S) (w : World S σ) : Prop :=
+  OkProg G cfg n ((P n).react (w.pstate n) n (reportedTime cfg w) cb) (log (.callback n cb (reportedTime cfg w)) w)
+
+def OkCallbackAll (cb : Callback S) : List NodeId → World S σ → Prop
+  | [], _ => True
+  | n :: ns, w => OkCallback G cfg P n cb w ∧ OkCallbackAll cb ns (callback cfg P n cb w)
+
+def OkExecEv (e : Ev (EvKind S)) (w : World S σ) : Prop :=
+  match e.kind with
+  | .timerFire n name id => w.pending.contains (n, name, id) = true →
+      OkCallback G cfg P n (.timer name) { w with pending := w.pending.erase (n, name, id) }
+  | .deliver dst _ msg => OkCallback G cfg P dst (.packet msg) w
+  | .mobTick => True
+  | .telemetry n p => OkCallback G cfg P n (.telemetry p) w
+
+def OkInitialise (w : World S σ) : Prop :=
+  OkCallbackAll G cfg P .initialize (List.range cfg.nNodes)
+    (logAll .handlerInit cfg.handlers { w with initialized := true })
+
+def OkFinalise (w : World S σ) : Prop :=
+  w.finalized = false → OkCallbackAll G cfg P .finish (List.range cfg.nNodes) w
+
+def OkPrep (w : World S σ) : Prop := w.initialized = false → OkInitialise G cfg P w
+
+/-- `G` holds at every request executed by one `step_simulation` call from `w` -/
+def OkStep (w : World S σ) : Prop :=
+  w.finalized = false →
+    OkPrep G cfg P w ∧
+    OkFinalise G cfg P (prep cfg P w) ∧
+    (∀ e rest, (prep cfg P w).loop.queue = e :: rest →
+      OkExecEv G cfg P e (popped e rest (prep cfg P w)) ∧
+      OkFinalise G cfg P (execStep cfg P e rest (prep cfg P w)))
+
+/-- `G` holds at every request executed by `k` calls of `step_simulation` from `w` -/
+def OkSteps : Nat → World S σ → Prop
+  | 0, _ => True
+  | k + 1, w => OkStep G cfg P w ∧ OkSteps k (step cfg P w).1
+
+variable {G cfg P}
+
+theorem okProg_of_forall (hG : ∀ n r w, G n r w) (n : NodeId) (p : Prog S σ) (w : World S σ) :
+    OkProg G cfg n p w := by
+  induction p generalizing w with
+  | done s => trivial
+  | req r k ih => exact ⟨hG n r w, ih _ _⟩
+
+theorem okCallbackAll_of_forall (hG : ∀ n r w, G n r w) (cb : Callback S) (ns : List NodeId)
+    (w : World S σ) : OkCallbackAll G cfg P cb ns w := by
+  induction ns generalizing w with
+  | nil => trivial
+  | cons n ns ih => exact ⟨okProg_of_forall hG _ _ _, ih _⟩
+
+theorem okExecEv_of_forall (hG : ∀ n r w, G n r w) (e : Ev (EvKind S)) (w : World S σ) :
+    OkExecEv G cfg P e w := by
+  obtain ⟨ts, seq, kind⟩ := e
+  cases kind with
+  | timerFire n name id => exact fun _ => okProg_of_forall hG _ _ _
+  | deliver dst src msg => exact okProg_of_forall hG _ _ _
+  | mobTick => trivial
+  | telemetry n p => exact okProg_of_forall hG _ _ _
+
+theorem okStep_of_forall (hG : ∀ n r w, G n r w) (w : World S σ) : OkStep G cfg P w :=
+  fun _ => ⟨fun _ => okCallbackAll_of_forall hG _ _ _, fun _ => okCallbackAll_of_forall hG _ _ _,
+    fun e _ _ => ⟨okExecEv_of_forall hG e _, fun _ => okCallbackAll_of_forall hG _ _ _⟩⟩
+
+theorem okSteps_of_forall (hG : ∀ n r w, G n r w) (k : Nat) (w : World S σ) : OkSteps G cfg P k w := by
+  induction k generalizing w with
+  | zero => trivial
+  | succ k ih => exact ⟨okStep_of_forall hG w, ih _⟩
+
+end ok
+
+/-- no condition on the worlds in which requests are executed -/
+abbrev NoCond : NodeId → Request S → World S σ → Prop := fun _ _ _ => True
+
 /-- what the generic chain needs to know about the predicates (everything but the execution of an event) -/
 structure CountSpec0 (σ : Type) (cfg : Config S) (R : Nat → Nat → Prop) (pa px : Ev (EvKind S) → Bool)
-    (po : Obs S → Bool) : Prop where
+    (po : Obs S → Bool) (G : NodeId → Request S → World S σ → Prop) : Prop where
   rel : AddRel R
-  /-- one request: the accepted events it creates vs its own `request` observation -/
-  req : ∀ (n : NodeId) (r : Request S) (w : World S σ), ∃ da,
+  /-- one request (executed in a world satisfying `G`): the accepted events it creates vs its own
+      `request` observation -/
+  req : ∀ (n : NodeId) (r : Request S) (w : World S σ), G n r w → ∃ da,
     (execReq cfg n r w).1.raccepted.countP pa = w.raccepted.countP pa + da ∧
     R da (bit (po (.request n r (execReq cfg n r w).2)))
   /-- mobility events are not counted on the accepted side -/
@@ -169,12 +273,14 @@ structure CountSpec0 (σ : Type) (cfg : Config S) (R : Nat → Nat → Prop) (pa
     (∀ n t, po (.callback n .finish t) = false)
 
 structure CountSpec (σ : Type) (cfg : Config S) (R : Nat → Nat → Prop) (pa px : Ev (EvKind S) → Bool)
-    (po : Obs S → Bool) : Prop extends CountSpec0 σ cfg R pa px po where
+    (po : Obs S → Bool) (G : NodeId → Request S → World S σ → Prop) : Prop
+    extends CountSpec0 σ cfg R pa px po G where
   /-- executing `e`: its own count on the executed side vs the callback observation it makes -/
   exec : ∀ (e : Ev (EvKind S)) (pend : Bool), R (bit (px e)) (evInc po (if cfg.hasTimer then e.ts else 0) e pend)
 
 section chain
 variable {R : Nat → Nat → Prop} {pa px : Ev (EvKind S) → Bool} {po : Obs S → Bool}
+  {G : NodeId → Request S → World S σ → Prop}
 
 theorem Grow.refl (hR : AddRel R) (w : World S σ) : Grow R pa px po w w := ⟨0, 0, rfl, rfl, hR.zero⟩
 
@@ -211,14 +317,14 @@ theorem grow_logAll (hR : AddRel R) (f : String → Obs S) (hf : ∀ h, po (f h)
 
 variable {cfg : Config S}
 
-theorem grow_runProg (hs : CountSpec0 σ cfg R pa px po) (n : NodeId) (p : Prog S σ) (w : World S σ) :
-    Grow R pa px po w (runProg cfg n p w).1 := by
+theorem grow_runProg (hs : CountSpec0 σ cfg R pa px po G) (n : NodeId) (p : Prog S σ) (w : World S σ)
+    (hok : OkProg G cfg n p w) : Grow R pa px po w (runProg cfg n p w).1 := by
   induction p generalizing w with
   | done s => exact Grow.refl hs.rel w
   | req r k ih =>
     simp only [runProg]
-    refine Grow.trans hs.rel ?_ (ih _ _)
-    obtain ⟨da, hda, hr⟩ := hs.req n r w
+    refine Grow.trans hs.rel ?_ (ih _ _ hok.2)
+    obtain ⟨da, hda, hr⟩ := hs.req n r w hok.1
     refine ⟨da, bit (po (.request n r (execReq cfg n r w).2)), ?_, ?_, hr⟩
     · show (execReq cfg n r w).1.raccepted.countP pa + (execReq cfg n r w).1.rexecuted.countP px = _
       rw [hda, (ext_execReq cfg n r w).exec_eq]; unfold mA; omega
@@ -226,15 +332,15 @@ theorem grow_runProg (hs : CountSpec0 σ cfg R pa px po) (n : NodeId) (p : Prog 
       rw [countP_cons_bit, execReq_rtrace]; rfl
 
 /-- a callback: its own observation, then a balanced program -/
-theorem grow_callback (hs : CountSpec0 σ cfg R pa px po) (P : NodeId → Proto S σ) (n : NodeId)
-    (cb : Callback S) (w : World S σ) :
+theorem grow_callback (hs : CountSpec0 σ cfg R pa px po G) (P : NodeId → Proto S σ) (n : NodeId)
+    (cb : Callback S) (w : World S σ) (hok : OkCallback G cfg P n cb w) :
     ∃ da dt, mA pa px (callback cfg P n cb w) = mA pa px w + da ∧
       mT po (callback cfg P n cb w) = mT po w + bit (po (.callback n cb (reportedTime cfg w))) + dt ∧
       R da dt := by
   unfold callback
   simp only
   obtain ⟨da, dt, ha, ht, hr⟩ := grow_runProg hs n ((P n).react (w.pstate n) n (reportedTime cfg w) cb)
-    (log (.callback n cb (reportedTime cfg w)) w)
+    (log (.callback n cb (reportedTime cfg w)) w) hok
   refine ⟨da, dt, ha, ?_, hr⟩
   have : mT po (log (.callback n cb (reportedTime cfg w)) w) =
       mT po w + bit (po (.callback n cb (reportedTime cfg w))) := by
@@ -242,20 +348,23 @@ theorem grow_callback (hs : CountSpec0 σ cfg R pa px po) (P : NodeId → Proto 
     rw [countP_cons_bit]; rfl
   rw [← this]; exact ht
 
-theorem grow_callback0 (hs : CountSpec0 σ cfg R pa px po) (P : NodeId → Proto S σ) (n : NodeId)
-    (cb : Callback S) (w : World S σ) (h0 : po (.callback n cb (reportedTime cfg w)) = false) :
-    Grow R pa px po w (callback cfg P n cb w) := by
-  obtain ⟨da, dt, ha, ht, hr⟩ := grow_callback hs P n cb w
+theorem grow_callback0 (hs : CountSpec0 σ cfg R pa px po G) (P : NodeId → Proto S σ) (n : NodeId)
+    (cb : Callback S) (w : World S σ) (h0 : po (.callback n cb (reportedTime cfg w)) = false)
+    (hok : OkCallback G cfg P n cb w) : Grow R pa px po w (callback cfg P n cb w) := by
+  obtain ⟨da, dt, ha, ht, hr⟩ := grow_callback hs P n cb w hok
   rw [h0] at ht
   exact ⟨da, dt, ha, by simpa using ht, hr⟩
 
-theorem grow_callbackAll (hs : CountSpec0 σ cfg R pa px po) (P : NodeId → Proto S σ) (cb : Callback S)
-    (h0 : ∀ n t, po (.callback n cb t) = false) (ns : List NodeId) (w : World S σ) :
-    Grow R pa px po w (callbackAll cfg P cb ns w) := by
+theorem grow_callbackAll (hs : CountSpec0 σ cfg R pa px po G) (P : NodeId → Proto S σ) (cb : Callback S)
+    (h0 : ∀ n t, po (.callback n cb t) = false) (ns : List NodeId) (w : World S σ)
+    (hok : OkCallbackAll G cfg P cb ns w) : Grow R pa px po w (callbackAll cfg P cb ns w) := by
   unfold callbackAll
-  exact grow_foldl hs.rel _ _ (fun w n => grow_callback0 hs P n cb w (h0 n _)) w
+  induction ns generalizing w with
+  | nil => exact Grow.refl hs.rel w
+  | cons n ns ih =>
+    exact (grow_callback0 hs P n cb w (h0 n _) hok.1).trans hs.rel (ih _ hok.2)
 
-theorem grow_mobTick (hs : CountSpec0 σ cfg R pa px po) (w : World S σ) :
+theorem grow_mobTick (hs : CountSpec0 σ cfg R pa px po G) (w : World S σ) :
     Grow R pa px po w (mobTick cfg w) := by
   unfold mobTick
   simp only
@@ -272,8 +381,8 @@ def pendOf (e : Ev (EvKind S)) (w : World S σ) : Bool :=
   | .timerFire n name id => w.pending.contains (n, name, id)
   | _ => false
 
-theorem grow_execEv (hs : CountSpec0 σ cfg R pa px po) (P : NodeId → Proto S σ) (e : Ev (EvKind S))
-    (w : World S σ) :
+theorem grow_execEv (hs : CountSpec0 σ cfg R pa px po G) (P : NodeId → Proto S σ) (e : Ev (EvKind S))
+    (w : World S σ) (hok : OkExecEv G cfg P e w) :
     ∃ da dt, mA pa px (execEv cfg P e w) = mA pa px w + da ∧
       mT po (execEv cfg P e w) = mT po w + evInc po (reportedTime cfg w) e (pendOf e w) + dt ∧ R da dt := by
   obtain ⟨ts, seq, kind⟩ := e
@@ -283,23 +392,23 @@ theorem grow_execEv (hs : CountSpec0 σ cfg R pa px po) (P : NodeId → Proto S 
     by_cases hc : w.pending.contains (n, name, id) = true
     · simp only [hc, ↓reduceIte]
       obtain ⟨da, dt, ha, ht, hr⟩ := grow_callback hs P n (.timer name)
-        { w with pending := w.pending.erase (n, name, id) }
+        { w with pending := w.pending.erase (n, name, id) } (hok hc)
       exact ⟨da, dt, ha, ht, hr⟩
     · simp only [hc]
       exact ⟨0, 0, rfl, rfl, hs.rel.zero⟩
-  | deliver dst src msg => exact grow_callback hs P dst (.packet msg) w
+  | deliver dst src msg => exact grow_callback hs P dst (.packet msg) w hok
   | mobTick =>
     obtain ⟨da, dt, ha, ht, hr⟩ := grow_mobTick hs w
     exact ⟨da, dt, ha, ht, hr⟩
-  | telemetry n p => exact grow_callback hs P n (.telemetry p) w
+  | telemetry n p => exact grow_callback hs P n (.telemetry p) w hok
 
-theorem grow_execStep' (hs : CountSpec0 σ cfg R pa px po) (P : NodeId → Proto S σ) (e : Ev (EvKind S))
-    (rest : List (Ev (EvKind S))) (w : World S σ)
+theorem grow_execStep' (hs : CountSpec0 σ cfg R pa px po G) (P : NodeId → Proto S σ) (e : Ev (EvKind S))
+    (rest : List (Ev (EvKind S))) (w : World S σ) (hok : OkExecEv G cfg P e (popped e rest w))
     (hex : R (bit (px e)) (evInc po (if cfg.hasTimer then e.ts else 0) e (pendOf e (popped e rest w)))) :
     Grow R pa px po w (execStep cfg P e rest w) := by
   rw [execStep_eq]
   simp only
-  obtain ⟨da, dt, ha, ht, hr⟩ := grow_execEv hs P e (popped e rest w)
+  obtain ⟨da, dt, ha, ht, hr⟩ := grow_execEv hs P e (popped e rest w) hok
   have hpa : mA pa px (popped e rest w) = mA pa px w + bit (px e) := by
     show w.raccepted.countP pa + (e :: w.rexecuted).countP px = _
     rw [countP_cons_bit]; unfold mA; omega
@@ -314,60 +423,68 @@ theorem grow_execStep' (hs : CountSpec0 σ cfg R pa px po) (P : NodeId → Proto
     (grow_logAll hs.rel _ (fun h => hs.life.2.1 _ _ _) _ _) ?_)
   exact Grow.of_eq hs.rel rfl rfl rfl
 
-theorem grow_execStep (hs : CountSpec σ cfg R pa px po) (P : NodeId → Proto S σ) (e : Ev (EvKind S))
-    (rest : List (Ev (EvKind S))) (w : World S σ) : Grow R pa px po w (execStep cfg P e rest w) :=
-  grow_execStep' hs.toCountSpec0 P e rest w (hs.exec e _)
+theorem grow_execStep (hs : CountSpec σ cfg R pa px po G) (P : NodeId → Proto S σ) (e : Ev (EvKind S))
+    (rest : List (Ev (EvKind S))) (w : World S σ) (hok : OkExecEv G cfg P e (popped e rest w)) :
+    Grow R pa px po w (execStep cfg P e rest w) :=
+  grow_execStep' hs.toCountSpec0 P e rest w hok (hs.exec e _)
 
-theorem grow_initialise (hs : CountSpec0 σ cfg R pa px po) (P : NodeId → Proto S σ) (w : World S σ) :
-    Grow R pa px po w (initialise cfg P w) := by
+theorem grow_initialise (hs : CountSpec0 σ cfg R pa px po G) (P : NodeId → Proto S σ) (w : World S σ)
+    (hok : OkInitialise G cfg P w) : Grow R pa px po w (initialise cfg P w) := by
   unfold initialise
   simp only
   refine Grow.trans hs.rel (b := { w with initialized := true }) (Grow.of_eq hs.rel rfl rfl rfl) ?_
   exact Grow.trans hs.rel (grow_logAll hs.rel _ hs.life.1 _ _)
-    (grow_callbackAll hs P .initialize hs.life.2.2.2.1 _ _)
+    (grow_callbackAll hs P .initialize hs.life.2.2.2.1 _ _ hok)
 
-theorem grow_finalise (hs : CountSpec0 σ cfg R pa px po) (P : NodeId → Proto S σ) (w : World S σ) :
-    Grow R pa px po w (finalise cfg P w) := by
+theorem grow_prep (hs : CountSpec0 σ cfg R pa px po G) (P : NodeId → Proto S σ) (w : World S σ)
+    (hok : OkPrep G cfg P w) : Grow R pa px po w (prep cfg P w) := by
+  unfold prep
+  cases hi : w.initialized with
+  | true => simp only [if_true]; exact Grow.refl hs.rel w
+  | false => simp only [Bool.false_eq_true, if_false]; exact grow_initialise hs P w (hok hi)
+
+theorem grow_finalise (hs : CountSpec0 σ cfg R pa px po G) (P : NodeId → Proto S σ) (w : World S σ)
+    (hok : OkFinalise G cfg P w) : Grow R pa px po w (finalise cfg P w) := by
   unfold finalise
-  split
-  · exact Grow.refl hs.rel w
-  · simp only
-    refine Grow.trans hs.rel (grow_callbackAll hs P .finish hs.life.2.2.2.2 (List.range cfg.nNodes) w) ?_
+  cases hf : w.finalized with
+  | true => simp only [if_true]; exact Grow.refl hs.rel w
+  | false =>
+    simp only [Bool.false_eq_true, if_false]
+    refine Grow.trans hs.rel (grow_callbackAll hs P .finish hs.life.2.2.2.2 (List.range cfg.nNodes) w (hok hf)) ?_
     refine Grow.trans hs.rel (grow_logAll hs.rel Obs.handlerFinal hs.life.2.2.1 cfg.handlers _) ?_
     exact Grow.of_eq hs.rel rfl rfl rfl
 
-theorem grow_step (hs : CountSpec σ cfg R pa px po) (P : NodeId → Proto S σ) (w : World S σ) :
-    Grow R pa px po w (step cfg P w).1 := by
+theorem grow_step (hs : CountSpec σ cfg R pa px po G) (P : NodeId → Proto S σ) (w : World S σ)
+    (hok : OkStep G cfg P w) : Grow R pa px po w (step cfg P w).1 := by
   cases hf : w.finalized with
   | true => unfold step; simp only [hf, if_true]; exact Grow.refl hs.rel w
   | false =>
     rw [step_eq cfg P w hf]
-    have h1 : Grow R pa px po w (prep cfg P w) := by
-      unfold prep; split
-      · exact Grow.refl hs.rel w
-      · exact grow_initialise hs.toCountSpec0 P w
-    generalize prep cfg P w = w1 at h1
+    obtain ⟨ok1, ok2, ok3⟩ := hok hf
+    have h1 : Grow R pa px po w (prep cfg P w) := grow_prep hs.toCountSpec0 P w ok1
+    generalize prep cfg P w = w1 at h1 ok2 ok3
     split
-    · exact h1.trans hs.rel (grow_finalise hs.toCountSpec0 P w1)
+    · exact h1.trans hs.rel (grow_finalise hs.toCountSpec0 P w1 ok2)
     · split
       · exact h1
       · rename_i e rest hq
-        have h2 := h1.trans hs.rel (grow_execStep hs P e rest w1)
+        have h2 := h1.trans hs.rel (grow_execStep hs P e rest w1 (ok3 e rest hq).1)
         split
-        · exact h2.trans hs.rel (grow_finalise hs.toCountSpec0 P _)
+        · exact h2.trans hs.rel (grow_finalise hs.toCountSpec0 P _ (ok3 e rest hq).2)
         · exact h2
 
-theorem grow_steps (hs : CountSpec σ cfg R pa px po) (P : NodeId → Proto S σ) (k : Nat) (w : World S σ) :
-    Grow R pa px po w (steps cfg P k w) := by
+theorem grow_steps (hs : CountSpec σ cfg R pa px po G) (P : NodeId → Proto S σ) (k : Nat) (w : World S σ)
+    (hok : OkSteps G cfg P k w) : Grow R pa px po w (steps cfg P k w) := by
   induction k generalizing w with
   | zero => exact Grow.refl hs.rel w
-  | succ k ih => exact (grow_step hs P w).trans hs.rel (ih _)
+  | succ k ih => exact (grow_step hs P w hok.1).trans hs.rel (ih _ hok.2)
 
-/-- the run-level statement of a `CountSpec`: in every reachable world the two measures are `R`-related -/
-theorem reachable_count (hs : CountSpec σ cfg R pa px po) {P : NodeId → Proto S σ} {w : World S σ}
-    (h : Reachable cfg P w) : R (mA pa px w) (mT po w) := by
-  obtain ⟨k, rfl⟩ := h
-  obtain ⟨da, dt, ha, ht, hr⟩ := grow_steps hs P k (init cfg P)
+/-- the run-level statement of a `CountSpec`: after `k` steps along which `G` held at every request,
+    the two measures are `R`-related -/
+theorem steps_count (hs : CountSpec σ cfg R pa px po G) (P : NodeId → Proto S σ) (k : Nat)
+    (hok : OkSteps G cfg P k (init cfg P)) :
+    R (mA pa px (steps cfg P k (init cfg P))) (mT po (steps cfg P k (init cfg P))) := by
+  obtain ⟨da, dt, ha, ht, hr⟩ := grow_steps hs P k (init cfg P) hok
   have h0a : mA pa px (init cfg P) = 0 := by
     rw [init_eq]
     split
@@ -378,6 +495,12 @@ theorem reachable_count (hs : CountSpec σ cfg R pa px po) {P : NodeId → Proto
     rw [init_eq]; split <;> rfl
   rw [ha, ht, h0a, h0t]
   simpa using hr
+
+/-- the unconditional case: in every reachable world the two measures are `R`-related -/
+theorem reachable_count (hs : CountSpec σ cfg R pa px po NoCond) {P : NodeId → Proto S σ} {w : World S σ}
+    (h : Reachable cfg P w) : R (mA pa px w) (mT po w) := by
+  obtain ⟨k, rfl⟩ := h
+  exact steps_count hs P k (okSteps_of_forall (fun _ _ _ => trivial) k _)
 
 end chain
 
@@ -470,10 +593,10 @@ theorem evInc_request_only (po : Obs S → Bool) (h : ∀ n cb t, po (.callback 
   cases kind <;> simp [evInc, h]
 
 theorem spec_setT (σ : Type) {cfg : Config S} (ht : cfg.hasTimer = true) (n : NodeId) (name : String) (t : Int) :
-    CountSpec σ cfg (fun a b => a = b) (isTimerEv n name t) (fun _ => false) (isSetAcc n name t) where
+    CountSpec σ cfg (fun a b => a = b) (isTimerEv n name t) (fun _ => false) (isSetAcc n name t) NoCond where
   rel := addRel_eq
   req := by
-    intro m r w
+    intro m r w _
     rcases execReq_raccepted_cases cfg m r w with ⟨h, h1, _, _⟩ | ⟨nm, at_, rfl, hok, h⟩ |
       ⟨msg, d, rfl, _, _, _, hok, h⟩ | ⟨msg, rfl, hok, h⟩
     · refine ⟨0, by rw [h]; rfl, ?_⟩
@@ -494,14 +617,15 @@ theorem spec_setT (σ : Type) {cfg : Config S} (ht : cfg.hasTimer = true) (n : N
 
 /-! ### instances 2 and 3: callbacks vs executed events -/
 
-theorem req_callback_only {cfg : Config S} {R : Nat → Nat → Prop} (hR : AddRel R) (po : Obs S → Bool)
-    (h : ∀ n r ok, po (.request n r ok) = false) (n : NodeId) (r : Request S) (w : World S σ) :
-    ∃ da, (execReq cfg n r w).1.raccepted.countP (fun _ => false) = w.raccepted.countP (fun _ => false) + da ∧
+theorem req_callback_only {cfg : Config S} {R : Nat → Nat → Prop} {G : NodeId → Request S → World S σ → Prop}
+    (hR : AddRel R) (po : Obs S → Bool)
+    (h : ∀ n r ok, po (.request n r ok) = false) (n : NodeId) (r : Request S) (w : World S σ)
+    (_ : G n r w) : ∃ da, (execReq cfg n r w).1.raccepted.countP (fun _ => false) = w.raccepted.countP (fun _ => false) + da ∧
       R da (bit (po (.request n r (execReq cfg n r w).2))) :=
   ⟨0, by simp, by rw [h]; exact hR.zero⟩
 
 theorem spec_firedT (σ : Type) {cfg : Config S} (ht : cfg.hasTimer = true) (n : NodeId) (name : String) (t : Int) :
-    CountSpec σ cfg (fun a b => b ≤ a) (fun _ => false) (isTimerEv n name t) (isTimerCb n name t) where
+    CountSpec σ cfg (fun a b => b ≤ a) (fun _ => false) (isTimerEv n name t) (isTimerCb n name t) NoCond where
   rel := addRel_ge
   req := req_callback_only addRel_ge _ (fun _ _ _ => rfl)
   mob := fun _ _ => ⟨rfl, fun _ _ => rfl⟩
@@ -513,7 +637,7 @@ theorem spec_firedT (σ : Type) {cfg : Config S} (ht : cfg.hasTimer = true) (n :
 
 theorem spec_handledP (σ : Type) {cfg : Config S} (ht : cfg.hasTimer = true) (dst : NodeId) (msg : String)
     (t : Int) :
-    CountSpec σ cfg (fun a b => a = b) (fun _ => false) (isDeliverEv dst msg t) (isPacketCb dst msg t) where
+    CountSpec σ cfg (fun a b => a = b) (fun _ => false) (isDeliverEv dst msg t) (isPacketCb dst msg t) NoCond where
   rel := addRel_eq
   req := req_callback_only addRel_eq _ (fun _ _ _ => rfl)
   mob := fun _ _ => ⟨rfl, fun _ _ => rfl⟩
@@ -522,6 +646,17 @@ theorem spec_handledP (σ : Type) {cfg : Config S} (ht : cfg.hasTimer = true) (d
     intro e pend
     obtain ⟨ts, seq, kind⟩ := e
     cases kind <;> cases pend <;> simp [evInc, isDeliverEv, isPacketCb, ht]
+
+theorem spec_handledTo (σ : Type) (cfg : Config S) (dst : NodeId) (msg : String) :
+    CountSpec σ cfg (fun a b => a = b) (fun _ => false) (isDeliverTo dst msg) (isPacketCbAny dst msg) NoCond where
+  rel := addRel_eq
+  req := req_callback_only addRel_eq _ (fun _ _ _ => rfl)
+  mob := fun _ _ => ⟨rfl, fun _ _ => rfl⟩
+  life := ⟨fun _ => rfl, fun _ _ _ => rfl, fun _ => rfl, fun _ _ => rfl, fun _ _ => rfl⟩
+  exec := by
+    intro e pend
+    obtain ⟨ts, seq, kind⟩ := e
+    cases kind <;> cases pend <;> simp [evInc, isDeliverTo, isPacketCbAny]
 
 @[simp] theorem mA_left (pa : Ev (EvKind S) → Bool) (w : World S σ) :
     mA pa (fun _ => false) w = w.raccepted.countP pa := by simp [mA]
@@ -611,10 +746,10 @@ theorem isAddrAcc_count (dst : NodeId) (msg : String) (l : List (Obs S)) :
     omega
 
 theorem spec_addr (σ : Type) (cfg : Config S) (dst : NodeId) (msg : String) :
-    CountSpec σ cfg (fun a b => a ≤ b) (isDeliverTo dst msg) (fun _ => false) (isAddrAcc dst msg) where
+    CountSpec σ cfg (fun a b => a ≤ b) (isDeliverTo dst msg) (fun _ => false) (isAddrAcc dst msg) NoCond where
   rel := addRel_le
   req := by
-    intro m r w
+    intro m r w _
     rcases execReq_raccepted_cases cfg m r w with ⟨h, _, _, _⟩ | ⟨nm, at_, rfl, hok, h⟩ |
       ⟨mg, d, rfl, hd0, _, _, hok, h⟩ | ⟨mg, rfl, hok, h⟩
     · exact ⟨0, by rw [h]; rfl, Nat.zero_le _⟩
@@ -647,6 +782,108 @@ theorem spec_addr (σ : Type) (cfg : Config S) (dst : NodeId) (msg : String) :
   mob := fun _ _ => ⟨rfl, fun _ _ => rfl⟩
   life := ⟨fun _ => rfl, fun _ _ _ => rfl, fun _ => rfl, fun _ _ => rfl, fun _ _ => rfl⟩
   exec := fun _ _ => Nat.zero_le _
+
+
+/-! ### instance 5: loss-free medium, every range test true — created = addressed -/
+
+/-- every `inRange` test the request makes in `w` succeeds -/
+def RangeOkReq (cfg : Config S) (n : NodeId) (r : Request S) (w : World S σ) : Prop :=
+  match r with
+  | .send _ (some d) => ¬ d < 0 → d < (cfg.nNodes : Int) → d ≠ (n : Int) → inRange w n d.toNat = true
+  | .broadcast _ => ∀ d, d < cfg.nNodes → d ≠ n → inRange w n d = true
+  | _ => True
+
+theorem broadcastTo_countTo_eq (cfg : Config S) (hl : Scalar.gt cfg.failRate (Scalar.ofInt 0) = false)
+    (src : NodeId) (mg : String) (dst : NodeId) (msg : String) (dsts : List NodeId) (w : World S σ)
+    (hr : ∀ d ∈ dsts, d ≠ src → inRange w src d = true) :
+    (broadcastTo cfg src mg dsts w).raccepted.countP (isDeliverTo dst msg) =
+      w.raccepted.countP (isDeliverTo dst msg) +
+        dsts.countP (fun d => decide (d ≠ src ∧ d = dst ∧ mg = msg)) := by
+  induction dsts generalizing w with
+  | nil => rfl
+  | cons d ds ih =>
+    unfold broadcastTo
+    simp only [List.foldl_cons]
+    rw [countP_cons_bit]
+    by_cases hd : d = src
+    · simp only [if_pos hd]
+      have := ih w (fun x hx => hr x (List.mem_cons_of_mem _ hx))
+      unfold broadcastTo at this
+      rw [this]
+      simp [hd]
+    · simp only [if_neg hd]
+      have hfr := transmit_frame cfg src d mg w
+      have hr' : ∀ x ∈ ds, x ≠ src → inRange (transmit cfg src d mg w) src x = true := by
+        intro x hx hne
+        have := hr x (List.mem_cons_of_mem _ hx) hne
+        unfold inRange at this ⊢
+        rw [hfr.1, hfr.2.1]; exact this
+      have := ih (transmit cfg src d mg w) hr'
+      unfold broadcastTo at this
+      rw [this, transmit_countP, ((consumeDraw_spec cfg w).1.2 hl).1, hr d List.mem_cons_self hd]
+      have hb : bit (isDeliverTo dst msg (⟨deliverTime cfg w, w.loop.nextSeq, .deliver d src mg⟩ : Ev (EvKind S))) =
+          bit (decide (d ≠ src ∧ d = dst ∧ mg = msg)) := by simp [isDeliverTo, hd]
+      simp only [Bool.and_self, if_true]
+      rw [hb]; omega
+
+theorem range_countP_addr' (k m dst : Nat) (hdst : dst < k) (b : Prop) [Decidable b] (p : Nat → Bool)
+    (hp : ∀ d, p d = true ↔ (d ≠ m ∧ d = dst ∧ b)) :
+    (List.range k).countP p = bit (decide (b ∧ m ≠ dst)) := by
+  by_cases hc : b ∧ m ≠ dst
+  · rw [decide_eq_true hc]
+    have h1 := countP_le_one_of_nodup (List.nodup_range (n := k)) p dst (fun d hd => ((hp d).mp hd).2.1)
+    have h2 : 0 < (List.range k).countP p :=
+      List.countP_pos_iff.mpr ⟨dst, List.mem_range.mpr hdst, (hp dst).mpr ⟨fun e => hc.2 e.symm, rfl, hc.1⟩⟩
+    simp only [bit_true]
+    omega
+  · rw [decide_eq_false hc]
+    rw [List.countP_eq_zero.mpr]
+    · rfl
+    · intro d _ hd
+      have hd := (hp d).mp hd
+      exact hc ⟨hd.2.2, fun e => hd.1 (by rw [hd.2.1, e])⟩
+
+theorem range_countP_addr (k m dst : Nat) (hdst : dst < k) (b : Prop) [Decidable b] :
+    (List.range k).countP (fun d => decide (d ≠ m ∧ d = dst ∧ b)) = bit (decide (b ∧ m ≠ dst)) :=
+  range_countP_addr' k m dst hdst b _ (fun _ => decide_eq_true_iff)
+
+theorem spec_addr_eq (σ : Type) {cfg : Config S} (hc : cfg.hasComm = true)
+    (hl : Scalar.gt cfg.failRate (Scalar.ofInt 0) = false) (dst : NodeId) (hdst : dst < cfg.nNodes)
+    (msg : String) :
+    CountSpec σ cfg (fun a b => a = b) (isDeliverTo dst msg) (fun _ => false) (isAddrAcc dst msg)
+      (RangeOkReq cfg) where
+  rel := addRel_eq
+  req := by
+    intro m r w hG
+    rcases execReq_raccepted_cases cfg m r w with ⟨h, _, h2, h3⟩ | ⟨nm, at_, rfl, hok, h⟩ |
+      ⟨mg, d, rfl, hd0, hlt, hne, hok, h⟩ | ⟨mg, rfl, hok, h⟩
+    · refine ⟨0, by rw [h]; rfl, ?_⟩
+      cases r with
+      | send mg d => rw [h2 hc mg d rfl]; cases d <;> rfl
+      | broadcast mg => exact absurd rfl (h3 hc mg)
+      | _ => rfl
+    · exact ⟨0, by rw [h, countP_cons_bit]; rfl, by rw [hok]; rfl⟩
+    · refine ⟨_, by rw [h, transmit_countP], ?_⟩
+      have hir : inRange w m d.toNat = true := hG hd0 hlt hne
+      rw [hok, ((consumeDraw_spec cfg w).1.2 hl).1, hir]
+      have h1 : d.toNat = dst → d = (dst : Int) := by omega
+      have h2 : d = (dst : Int) → d.toNat = dst := by omega
+      simp only [isDeliverTo, isAddrAcc, isSendAcc, isBcastAcc, Bool.or_false, Bool.and_self, if_true]
+      by_cases hm : mg = msg
+      · by_cases hdd : d.toNat = dst
+        · simp [hm, h1 hdd]
+        · have : ¬ d = (dst : Int) := fun e => hdd (h2 e)
+          simp [hdd, this]
+      · simp [hm]
+    · refine ⟨_, by rw [h, broadcastTo_countTo_eq cfg hl m mg dst msg _ w
+        (fun d hd hne => hG d (List.mem_range.mp hd) hne)], ?_⟩
+      rw [hok, range_countP_addr _ _ _ hdst]
+      simp only [isAddrAcc, isSendAcc, isBcastAcc, Bool.false_or]
+  mob := fun _ _ => ⟨rfl, fun _ _ => rfl⟩
+  life := ⟨fun _ => rfl, fun _ _ _ => rfl, fun _ => rfl, fun _ _ => rfl, fun _ _ => rfl⟩
+  exec := by
+    intro e pend
+    rw [evInc_request_only _ (fun _ _ _ => rfl)]; rfl
 
 /-! ### without a cancel, every queued timer event of `(n, name)` is still pending -/
 
@@ -916,7 +1153,7 @@ end qext
 /-! ### without a cancel, every executed timer event of `(n, name)` made its callback -/
 
 theorem spec0_firedT_eq (σ : Type) (cfg : Config S) (n : NodeId) (name : String) (t : Int) :
-    CountSpec0 σ cfg (fun a b => a = b) (fun _ => false) (isTimerEv n name t) (isTimerCb n name t) where
+    CountSpec0 σ cfg (fun a b => a = b) (fun _ => false) (isTimerEv n name t) (isTimerCb n name t) NoCond where
   rel := addRel_eq
   req := req_callback_only addRel_eq _ (fun _ _ _ => rfl)
   mob := fun _ _ => ⟨rfl, fun _ _ => rfl⟩
@@ -944,19 +1181,19 @@ theorem FExt.trans {a b c : World S σ} (h1 : FExt n name a b) (h2 : FExt n name
 theorem fext_prep (cfg : Config S) (P : NodeId → Proto S σ) (w : World S σ) :
     FExt n name w (prep cfg P w) := by
   refine ⟨qext_prep cfg P w, fun _ _ t => ?_⟩
-  unfold prep; split
-  · exact Grow.refl addRel_eq w
-  · exact grow_initialise (spec0_firedT_eq σ cfg n name t) P w
+  exact grow_prep (spec0_firedT_eq σ cfg n name t) P w (fun _ => okCallbackAll_of_forall (fun _ _ _ => trivial) _ _ _)
 
 theorem fext_finalise (cfg : Config S) (P : NodeId → Proto S σ) (w : World S σ) :
     FExt n name w (finalise cfg P w) :=
-  ⟨qext_finalise cfg P w, fun _ _ t => grow_finalise (spec0_firedT_eq σ cfg n name t) P w⟩
+  ⟨qext_finalise cfg P w, fun _ _ t => grow_finalise (spec0_firedT_eq σ cfg n name t) P w
+    (fun _ => okCallbackAll_of_forall (fun _ _ _ => trivial) _ _ _)⟩
 
 theorem fext_execStep (cfg : Config S) (ht : cfg.hasTimer = true) (P : NodeId → Proto S σ)
     (e : Ev (EvKind S)) (rest : List (Ev (EvKind S))) (w : World S σ) (hw : WInv w) (hp : PInv w)
     (hq : w.loop.queue = e :: rest) : FExt n name w (execStep cfg P e rest w) := by
   refine ⟨qext_execStep cfg P e rest w hw hp hq, fun _ qp t => ?_⟩
-  refine grow_execStep' (spec0_firedT_eq σ cfg n name t) P e rest w ?_
+  refine grow_execStep' (spec0_firedT_eq σ cfg n name t) P e rest w
+    (okExecEv_of_forall (fun _ _ _ => trivial) _ _) ?_
   have he : e ∈ w.loop.queue := by rw [hq]; exact List.mem_cons_self
   obtain ⟨ts, seq, kind⟩ := e
   cases kind with
